@@ -12,7 +12,6 @@ EXTENDS C04, TLCExt
 VARIABLES l, seen
 Tr == JsonDeserialize(IOEnv.TRACE_FILE)
 Triggers(e) == (IF RespelledRedirectKey(e.x) THEN {"RespelledRedirectKey"} ELSE {})
-               \cup (IF PlatformTrailingSlash(e.x) THEN {"PlatformTrailingSlash"} ELSE {})
 \* option indices: n[1..4] = (quoted, platform) in {FF, TF, FT, TT}; f[1..4] = (strip_suffix, platform) in {FF, TF, FT, TT}
 \* c[1] unquoted, c[2] quoted
 Pairs(e) ==   \* <<table key, observed stronger result, clause name>>
